@@ -98,6 +98,21 @@ def run(ctx: core.Ctx):
                           {kk: expected[k][kk] for kk in ("out", "fuzzy", "deg", "trig")}, d, note=f"{case['engine']['name']} row {k}: {d}", step=k)
         if ci in (0, 13):
             ctx.sample({"engine": case["engine"]["name"], "row": case["rows"][5], "expected": expected.get(6)})
+    # code -> spec: recorded process() calls validated by spec/Trace_Engine.tla
+    from . import trace_engine
+
+    def runner(case):
+        def go():
+            e = build_engine(fl, case["engine"], style=case.get("style", 0))
+            for row in case["rows"][: (12 if ctx.quick else 40)]:
+                try:
+                    for iv, x in zip(e.input_variables, row):
+                        iv.value = to_float(x)
+                    e.process()
+                except Exception:
+                    pass
+        return go
+    trace_engine.validate(ctx, fl, [runner(c) for c in cases[: (60 if ctx.quick else 260)]])
     ctx.extra["engines"] = len(cases)
     ctx.extra["rows"] = nrows
     ctx.exhaustive = ctx.quick is False
